@@ -272,6 +272,11 @@ func Read(r io.Reader) (*Font, error) {
 		var widths []funit.Int16
 		if hmtxInfo != nil && len(hmtxInfo.Widths) > 0 {
 			widths = hmtxInfo.Widths
+		} else {
+			// Without a usable "hmtx" table all advance widths are zero.
+			// This is also what Write emits for a font without widths, so
+			// that the font survives a write/read cycle.
+			widths = make([]funit.Int16, len(ttGlyphs))
 		}
 
 		var names []string
